@@ -117,6 +117,12 @@ func TestVerifC05(t *testing.T) {
 										if periods > 0 && !c05PeriodAligned(a, periods) {
 											continue // such period durations must be rejected: decided by C06, not walked here
 										}
+										if periods > 0 && start != 0 {
+											// periods tile wall-clock time: only with a start time on a period boundary do the boundaries fall
+											// between segments (otherwise a segment straddles two periods and "the period containing its
+											// start" may lie before the time-shift window)
+											start = start / int64(3600/periods) * int64(3600/periods)
+										}
 										if tsbd == 10 && stopK == 0 && ato == 0 && start == 0 && periods == 0 {
 											// parameters that add elements to the MPD: none of them may make the content depend on the request instant
 											for _, extra := range []string{"utc_direct", "utc_direct-httpisoms", "utc_head-ntp-sntp-httpxsdate-httpiso", "scte35_1", "mup_3", "spd_4", "ltgt_2500", "patch_60"} {
